@@ -627,6 +627,9 @@ def c08_19(ctx):
             o.attrs.update(kw)
         hooks = {(clsname, "__init__"): init, ("S256Point", "parse"): lambda cls, b, *a, **k: Obj("pecc", "S256Point", {"sec_": b}),
                  ("PrivateKey", "__init__"): lambda o, secret=None, *a, **k: o.attrs.update({"secret": secret, "point": Obj("pecc", "S256Point", {})})}
+        hooks2 = dict(hooks)
+        hooks2[("S256Point", "sec")] = lambda o, *a, **k: o.attrs["sec_"]
+        hooks2[("PrivateKey", "wif")] = lambda o, *a, **k: "wif"
         bad, n = None, 0
         for fam in ("mainnet", "testnet"):
             for h in SLIP132["%s_%s" % (fam, kind)]:
@@ -647,6 +650,19 @@ def c08_19(ctx):
                     got = r.attrs if isinstance(r, Obj) else {}
                     if got.get("pub_version" if kind == "pub" else "priv_version") != ver or got.get("depth") != depth or got.get("child_number") != child:
                         bad = ("bad", "the extended key %s… (version %s) parses to different fields" % (text[:4], h))
+                        break
+                    # and back: the parsed key re-encodes to the string it was decoded from (no argument: the key's own version)
+                    try:
+                        back = Evaluator(ctx.repo, method_hooks=hooks2, max_steps=600000).call("hd:%s.%s" % (clsname, "xpub" if kind == "pub" else "xprv"), [], self_obj=r)
+                    except Raised as x:
+                        bad = ("bad", "re-encoding the parsed key %s… raises %s" % (text[:4], x.name))
+                        break
+                    except Undecided as u:
+                        bad = ("err", "re-encoding not evaluable: %s" % u)
+                        break
+                    if back != text:
+                        bad = ("bad", "the extended key %s… (version %s) parsed and re-encoded without a version argument comes back as %s…: decoding does not invert encoding for "
+                                      "this prefix" % (text[:4], h, back[:4] if isinstance(back, str) else back))
                         break
                 if bad:
                     break
@@ -723,9 +739,58 @@ def c08_20(ctx):
 
 
 
+def c08_21(ctx):
+    """master key from seed, evaluated with the standard library's HMAC-SHA512: for seeds of 16, 32 and 64 bytes whose first / last bytes are
+    zero, ASCII white space (0x09-0x0d, 0x20), 0xff or ordinary, and for every network, the master secret is the left half and the chain code
+    the right half of HMAC-SHA512("Bitcoin seed", seed) over ALL the seed bytes; depth, parent fingerprint and child number are zero and the
+    network / version arguments are passed on"""
+    import hashlib
+    import hmac
+    from sa.cells import ClassRef, Evaluator, Obj, Raised, Undecided
+    spec = "hd:HDPrivateKey.from_seed"
+    mod, fn = rl.get(ctx, spec)
+    got = {}
+
+    def hd_init(o, private_key=None, chain_code=None, depth=0, parent_fingerprint=b"\x00\x00\x00\x00", child_number=0, network="mainnet", priv_version=None, pub_version=None, *a, **k):
+        got.update({"secret": private_key.attrs.get("secret") if isinstance(private_key, Obj) else private_key, "chain_code": chain_code, "depth": depth,
+                    "parent_fingerprint": parent_fingerprint, "child_number": child_number, "network": network, "priv_version": priv_version, "pub_version": pub_version})
+    hooks = {("HDPrivateKey", "__init__"): hd_init, ("PrivateKey", "__init__"): lambda o, secret=None, *a, **k: o.attrs.update({"secret": secret})}
+    seeds = []
+    for length in (16, 32, 64):
+        body = bytes((i * 29 + 5) & 255 or 1 for i in range(length - 2))
+        for first in (0x00, 0x20, 0x41, 0xFF):
+            for last in (0x00, 0x09, 0x0A, 0x0D, 0x20, 0x41, 0xFF):
+                if length != 16 and (first, last) not in ((0x41, 0x20), (0x20, 0x0A), (0x00, 0x00)):
+                    continue
+                seeds.append(bytes([first]) + body + bytes([last]))
+    n = 0
+    try:
+        for seed in seeds:
+            for net, pv in (("mainnet", None), ("testnet", bytes.fromhex("045f1cf6"))):
+                n += 1
+                got.clear()
+                try:
+                    Evaluator(ctx.repo, method_hooks=hooks, max_steps=1000000).call(spec, [seed], kwargs={"network": net, "priv_version": pv}, self_obj=ClassRef("hd", "HDPrivateKey"))
+                except Raised as x:
+                    return [ctx.bad(spec, "from_seed raises %s for the %d-byte seed %s…%s" % (x.name, len(seed), seed[:2].hex(), seed[-2:].hex()), fn, mod, key="master-cells")]
+                h = hmac.new(b"Bitcoin seed", seed, hashlib.sha512).digest()
+                if got.get("secret") != int.from_bytes(h[:32], "big") or got.get("chain_code") != h[32:]:
+                    return [ctx.bad(spec, "the master key of the %d-byte seed that starts with %#04x and ends with %#04x is not HMAC-SHA512(\"Bitcoin seed\", seed) over the whole seed "
+                                          "(bytes of the seed were dropped or changed before hashing)" % (len(seed), seed[0], seed[-1]), fn, mod, key="master-cells")]
+                if got.get("depth") != 0 or got.get("parent_fingerprint") != bytes(4) or got.get("child_number") != 0 or got.get("network") != net or got.get("priv_version") != pv:
+                    return [ctx.bad(spec, "the master key is not built with depth 0, zero parent fingerprint, child number 0 and the network / version it was given", fn, mod, key="master-cells")]
+    except Undecided as u:
+        return [ctx.err(spec, "from_seed not evaluable: %s" % u, fn, mod)]
+    ctx.count("cells", n)
+    return [ctx.ok(spec, "%d (seed, network) cells: master secret ‖ chain code = HMAC-SHA512(\"Bitcoin seed\", seed) for seeds with zero / white-space / 0xff edge bytes" % n, fn, mod,
+                   key="master-cells")]
+
+
+
 OBLIGATIONS = [
     ("C08.18", "CELLS xkey fields", c08_18),
     ("C08.19", "CELLS xkey string entry", c08_19),
+    ("C08.21", "CELLS master key from seed", c08_21),
     ("C08.20", "CELLS blinding", c08_20),
     ("C08.17", "SHARED", c08_17),
     ("C08.16", "SET-ORDER", c08_16),
